@@ -140,6 +140,8 @@ func Steps() int               { return 0 }
 func Allocs() int              { return 0 }
 func SetSchedSymbolic(b bool)  {}
 func TimersFired() int         { return 0 }
+func SetTimerBudget(n int)     {}
+func AdvanceClock(ns int)      {}
 
 // Run executes a harness natively and reports assertion failures / panics (used by replay tests).
 func Run(f func()) (failure string) {
